@@ -3,11 +3,12 @@
 Obligations
   theorems   Cppcheck.C01.* (Props/C01.lean): calculate_sound, calculate_error_iff, infer_sound (current code, after fix 8842d71;
              infer_sound_counterexample / infer_prefix_sound_partial are about the pre-fix function, F20), fold_binary_sound_partial
-             (+ fold_binary_unsigned_wrap_counterexample, F5), validator_sound / validator_sound_bigstep (all MiniC programs,
+             (+ fold_binary_unsigned_wrap_counterexample, F5), carry_impossible_* (Impossible value through x op= k; `*=` with k <= 0 refuted, F1h), validator_sound / validator_sound_bigstep (all MiniC programs,
              all inputs, all platform records, no hypothesis), interpreter_agrees_bigstep
   C1         in-process correspondence (harness/c01.cpp vs lean/Driver/C01.lean): calculate<bigint>, calculate<int>,
              castValue, truncateIntValue, infer(makeIntegralInferModel(), …), getMinValue/getMaxValue
-  E2E        generated MiniC programs printed as C; `cppcheck --dump` facts (hook H1: indirect=) mapped to MiniC
+  T          operator list of the impossible-value guard of ValueFlowAnalyzer::isWritable == Calc.carryOps (fail closed)
+  E2E        generated MiniC programs (quiet fragment + compound-assignment family + narrow-operand unary family) printed as C; `cppcheck --dump` facts (hook H1: indirect=) mapped to MiniC
              occurrences and passed to the verified validator (accepted = proved for all inputs of that program);
              rejected => violation search with the Lean interpreter, root-cause reduction, classification
   SPEC       the MiniC interpreter (the semantics the validator is proved against) agrees with gcc -fsanitize=undefined
